@@ -40,7 +40,7 @@ def _val(rng, kind_hint=None):
     r = rng.random()
     k = kind_hint if (kind_hint and r < 0.62) else rng.choice(["int", "float", "str", "bool", "quantity", "nan", "inf", "none", "sel", "unit"])
     if k == "int":
-        return ["int", rng.choice([0, 1, -1, 5, 10, 11, 99, 100, 101, -100, 10 ** 12, rng.randint(-20, 120)])]
+        return ["int", rng.choice([0, 1, -1, 2, 3, 5, 7, 8, 10, 11, 99, 100, 101, -100, -8, -7, 10 ** 12, rng.randint(-20, 120)])]
     if k == "float":
         return ["float", rng.choice([0.0, 0.5, -0.5, 10.0, 10.000001, 99.9, 100.0, 100.1, 1e300, -1e300, rng.uniform(-20, 120)])]
     if k in ("str", "sel"):
@@ -70,6 +70,9 @@ def _spec(rng, kind):
         elif r < 0.9:
             lo, hi = sorted(rng.sample([0, 1, 10, 50, 100], 2))
             s["min"], s["max"] = (lo, hi) if kind == "int" else (float(lo), float(hi))
+            if rng.random() < 0.25:
+                # bounds need not be whole numbers, for an int parameter either (0 is not within [0.5, 10]); negative ranges
+                s["min"], s["max"] = rng.choice([(0.5, 10), (2.5, 7.5), (-10, -0.5), (-7.5, 2.5), (0.5, 1.5)])
         else:
             s["min"], s["max"] = 10, 10 if rng.random() < 0.5 else 5     # illegal spec
     elif kind == "quantity":
